@@ -115,10 +115,14 @@ func (fr *Frame) execInstr(in ssa.Instruction, st *State, alive *Term) *Term {
 		if !ok {
 			unsupported("extract from unknown tuple %s", x.Tuple.Name())
 		}
-		if g.sortOf(x.Type()) != SNone {
+		if tu[x.Index] != nil && g.sortOf(x.Type()) != SNone {
 			fr.vals[x] = g.withType(tu[x.Index], x.Type())
 		}
 	case *ssa.MakeInterface:
+		if strings.HasPrefix(typeShort(x.X.Type()), "*orderedmap.OrderedMap") && g.sortOf(x.Type()) == SVal {
+			// VAL-INV: an interface value never holds a typed-nil map pointer (assumed at every type test)
+			fr.safety(x, "no-typed-nil-map", fr.ord(x), alive, Not(Eq(fr.val(x.X), IntLit(0))))
+		}
 		fr.setVal(x, fr.makeInterface(x.X.Type(), x.Type(), fr.val(x.X), st))
 	case *ssa.ChangeInterface:
 		from, to := g.sortOf(x.X.Type()), g.sortOf(x.Type())
@@ -158,6 +162,11 @@ func (fr *Frame) execInstr(in ssa.Instruction, st *State, alive *Term) *Term {
 		// indexing an array value
 		arr := fr.val(x.X)
 		idx := fr.val(x.Index)
+		if arr.Sort == SStr {
+			fr.safety(x, "index", fr.ord(x), alive, And(mk(">=", SBool, idx, IntLit(0)), Lt(idx, App("slen", SInt, arr))))
+			fr.setVal(x, App("sbyte", SInt, arr, idx))
+			break
+		}
 		if at, ok := x.X.Type().Underlying().(*types.Array); ok {
 			fr.safety(x, "index", fr.ord(x), alive, And(mk(">=", SBool, idx, IntLit(0)), Lt(idx, IntLit(at.Len()))))
 		}
@@ -191,6 +200,23 @@ func (fr *Frame) execInstr(in ssa.Instruction, st *State, alive *Term) *Term {
 			d := fr.defers[i]
 			fr.runDeferred(d, st, alive)
 		}
+	case *ssa.Range:
+		// iteration over a Go map or a string: the iterator itself carries no modelled state
+	case *ssa.Next:
+		// next element of a Go map / string iteration: nondeterministic (ok, key, value)
+		tu := x.Type().(*types.Tuple)
+		var res []*Term
+		for i := 0; i < tu.Len(); i++ {
+			et := tu.At(i).Type()
+			if b, isBasic := et.(*types.Basic); isBasic && b.Kind() == types.Invalid {
+				res = append(res, nil)
+				continue
+			}
+			t := vc.fresh(fr.name(fmt.Sprintf("%s_n%d", x.Name(), i)), g.sortOf(et))
+			t.Ty = et
+			res = append(res, t)
+		}
+		fr.tuples[x] = res
 	case *ssa.Panic:
 		if !vc.ct.MayPanic {
 			fr.safety(x, "panic", fr.ord(x), alive, False)
@@ -200,6 +226,14 @@ func (fr *Frame) execInstr(in ssa.Instruction, st *State, alive *Term) *Term {
 		unsupported("instruction %T (%s) in %s", in, in, shortFnName(fr.fn))
 	}
 	return alive
+}
+
+func isOMElement(t types.Type) bool {
+	return strings.HasPrefix(typeShort(t), "orderedmap.Element[")
+}
+
+func isOMStruct(t types.Type) bool {
+	return strings.HasPrefix(typeShort(t), "orderedmap.OrderedMap[")
 }
 
 func fieldName(x *ssa.FieldAddr) string {
@@ -285,6 +319,12 @@ func isNilConst(v ssa.Value) bool {
 func (fr *Frame) binopChecked(x *ssa.BinOp, alive *Term) *Term {
 	a, b := fr.val(x.X), fr.val(x.Y)
 	r := fr.binop(x, a, b)
+	if (x.Op == token.EQL || x.Op == token.NEQ) && a.Sort == SVal && b.Sort == SVal {
+		// comparing two interface values panics when both hold the same uncomparable dynamic type
+		if !isComparableCtor(a) && !isComparableCtor(b) {
+			fr.safety(x, "comparable", fr.ord(x), alive, Not(Or(And(tester("VArr", a), tester("VArr", b)), And(tester("VBy", a), tester("VBy", b)), And(tester("VOther", a), tester("VOther", b)))))
+		}
+	}
 	if fr.vc.ct.Arith && fr.vc.g.sortOf(x.X.Type()) == SInt {
 		switch x.Op {
 		case token.ADD, token.SUB, token.MUL:
@@ -292,6 +332,15 @@ func (fr *Frame) binopChecked(x *ssa.BinOp, alive *Term) *Term {
 		}
 	}
 	return r
+}
+
+// isComparableCtor: the term is syntactically a value of a comparable dynamic type (or nil)
+func isComparableCtor(t *Term) bool {
+	switch t.Op {
+	case "VNil", "VStr", "VNum", "VBool", "VF64", "VInt", "VMap", "VOp":
+		return true
+	}
+	return false
 }
 
 func inInt64(t *Term) *Term {
@@ -333,6 +382,21 @@ func (fr *Frame) load(addr ssa.Value, ty types.Type, st *State, alive *Term, in 
 	case *ssa.FieldAddr:
 		base := fr.val(a.X)
 		stt := a.X.Type().Underlying().(*types.Pointer).Elem()
+		if isOMElement(stt) {
+			// fields of an ordered-map element: read through the abstract state of its map
+			m := Select(st.Get(g, "Mem:OMap"), App("elMap", SInt, base))
+			pos := App("elPos", SInt, base)
+			switch fieldName(a) {
+			case "Key":
+				return App("omKey", SStr, m, pos)
+			case "Value":
+				v := fr.vc.define("elval", App("omVal", SVal, m, pos))
+				fr.vc.assume(Implies(App("isTable", SBool, App("elMap", SInt, base)), App("tableVal", SBool, v)))
+				fr.vc.assume(Implies(And(Not(App("isTable", SBool, App("elMap", SInt, base))), tester("VMap", v)), Not(App("isTable", SBool, mk("mv", SInt, v)))))
+				return v
+			}
+			unsupported("load of ordered-map element field %s", fieldName(a))
+		}
 		if _, isStruct := ty.Underlying().(*types.Struct); isStruct {
 			n := g.autoFun("ldstruct_"+typeShort(ty), SOpq, SInt)
 			return App(n, SOpq, fr.val(a))
@@ -350,6 +414,10 @@ func (fr *Frame) load(addr ssa.Value, ty types.Type, st *State, alive *Term, in 
 				fr.safety(in, "nil-deref", "load", alive, Not(Eq(p, IntLit(0))))
 			}
 		}
+	}
+	if isOMStruct(ty) {
+		// struct copy of an ordered map: a snapshot of its abstract state
+		return App("opqOfOM", SOpq, Select(st.Get(g, "Mem:OMap"), p))
 	}
 	switch u := ty.Underlying().(type) {
 	case *types.Struct:
@@ -376,6 +444,9 @@ func (fr *Frame) store(addr ssa.Value, v *Term, st *State, alive *Term, in ssa.I
 	case *ssa.FieldAddr:
 		base := fr.val(a.X)
 		stt := a.X.Type().Underlying().(*types.Pointer).Elem()
+		if isOMElement(stt) {
+			unsupported("store to a field of an ordered-map element")
+		}
 		if v.Sort == SOpq {
 			return // whole-struct store into a nested struct field: not modelled (opaque)
 		}
@@ -396,6 +467,10 @@ func (fr *Frame) store(addr ssa.Value, v *Term, st *State, alive *Term, in ssa.I
 		}
 	}
 	el := addr.Type().Underlying().(*types.Pointer).Elem()
+	if isOMStruct(el) && v.Sort == SOpq {
+		set("Mem:OMap", Store(st.Get(g, "Mem:OMap"), p, App("omOfOpq", SOMap, v)))
+		return
+	}
 	switch u := el.Underlying().(type) {
 	case *types.Struct:
 		// storing a whole struct value: opaque, havoc its fields
@@ -527,7 +602,7 @@ func (fr *Frame) makeInterface(from, to types.Type, v *Term, st *State) *Term {
 	switch {
 	case ts == "json.Number":
 		return mk("VNum", SVal, v)
-	case ts == "OperatorType":
+	case ts == "OperatorType" || ts == "main.OperatorType":
 		return mk("VOp", SVal, v)
 	case strings.HasPrefix(ts, "*orderedmap.OrderedMap"):
 		return mk("VMap", SVal, v)
@@ -575,13 +650,14 @@ func (fr *Frame) typeTest(v *Term, ty types.Type) (*Term, *Term) {
 	switch {
 	case ts == "json.Number":
 		return sel("VNum", "nv")
-	case ts == "OperatorType":
+	case ts == "OperatorType" || ts == "main.OperatorType":
 		return sel("VOp", "ov")
 	case strings.HasPrefix(ts, "*orderedmap.OrderedMap"):
 		return sel("VMap", "mv")
 	case ts == "[]any" || ts == "[]interface{}":
 		ok, t := sel("VArr", "av")
 		t.Elem = SVal
+		fr.vc.assume(Implies(ok, sliceWF(t))) // VAL-INV: slices inside interface values are well-formed slice headers
 		return ok, t
 	}
 	if b, ok := ty.(*types.Basic); ok {
@@ -618,6 +694,9 @@ func (fr *Frame) execTypeAssert(x *ssa.TypeAssert, alive *Term) {
 	var okc, out *Term
 	if v.Sort == SVal {
 		okc, out = fr.typeTest(v, x.AssertedType)
+		if strings.HasPrefix(typeShort(x.AssertedType), "*orderedmap.OrderedMap") {
+			fr.vc.assume(Implies(tester("VMap", v), Not(Eq(mk("mv", SInt, v), IntLit(0))))) // VAL-INV
+		}
 	} else {
 		// assertion on a non-empty interface value (e.g. err.(*net.AddrError)): by dynamic type tag
 		if _, isPtr := x.AssertedType.Underlying().(*types.Pointer); isPtr && v.Sort == SInt {
